@@ -10,7 +10,25 @@ the ground truth the property speaks about:
   the set of signal keys it mentions.
 
 Everything is ASCII, so byte offsets are string offsets.  The generator knows
-nothing about the IR: keys are built from the emitted text only."""
+nothing about the IR: keys are built from the emitted text only.
+
+Deliberate shapes (each counted in the coverage of the check, each the only
+witness of some realistic edit):
+
+* template headers `template T`, `template parallel T`, `template custom G`,
+  `template custom parallel G` (the grammar fixes the order custom, parallel),
+  `pragma custom_templates;` present or not, `parallel` in front of component
+  instantiations and anonymous calls.  A `parallel` template is an ordinary
+  template for C08 (`kind` = "template", `parallel` = True): every `<--` in it
+  needs its finding; a custom template needs none.
+* `dup`: the SAME target (`dup` = "scalar", "port", "elem-const" or
+  "elem-loop": the same array element indexed by the enclosing loop variable)
+  assigned with `<--`/`-->` in both branches of an if/else, optionally once
+  more in a following `if` — statements that differ in nothing but their
+  location (and right-hand side), the witness of an assignment identity that
+  forgets the location.
+* class `decl-tuple-dup-name` (known finding C08-decl-tuple-duplicate-name):
+  `signal (t, t) <-- (e1, e2)` names one signal twice."""
 
 NONQUAD_BIN = ["/", "\\", "%", ">>", "<<", "&", "|", "^", "<", ">", "==", "**"]
 QUAD_BIN = ["+", "-", "*"]
@@ -61,6 +79,7 @@ class Gen:
         self.defs = []          # per definition: dict(kind, name, assigns, constraints, other)
         self.loop_id = 0
         self.features = set()
+        self.emit_known = True   # also write the shapes of the listed known-finding classes
 
     # ---------------------------------------------------------------- helpers
     def ch(self, xs):
@@ -169,7 +188,7 @@ class Gen:
         if extra:
             rec.update(extra)
         sc["def"]["assigns"].append(rec)
-        if not key[0].startswith("<"):
+        if not key[0].startswith("<") and not (extra and extra.get("kf")):
             sc["assigned"].append((key, [l for l in sc["loops"]]))
         self.features.add(form)
 
@@ -221,7 +240,7 @@ class Gen:
                 a = w.put("%s ==> %s" % (self.atom(e), t))
             w.put(";\n")
             self.rec_constraint(sc, a, m | {k}, "cassign")
-        elif r < 0.56:                                 # L === R;
+        elif r < 0.55:                                 # L === R;
             want = self.wanted(sc)
             l, ml = self.expr(sc, d, want=want)
             rr, mr = self.expr(sc, 1, want=None if self.p(0.8) else want)
@@ -229,6 +248,8 @@ class Gen:
             w.put("%s === %s;" % (l, rr))
             self.rec_constraint(sc, (s, w.pos), ml | mr, "ceq")
             w.put("\n")
+        elif r < 0.60 and sc["depth"] < 4:              # the same target in both branches
+            self.dup_branch(sc)
         elif r < 0.64:                                 # tuples
             n = self.rng.randrange(2, 4)
             op = self.ch(["<--", "<--", "<==", "-->", "==>"])
@@ -271,6 +292,12 @@ class Gen:
                 names.append("t%d" % sc["fresh"][0])
                 sc["fresh"][0] += 1
             vals = [self.expr(sc, 1, want=self.wanted(sc) if op == "<==" else None) for _ in range(n)]
+            dupname = None
+            if form == 2 and n >= 2 and op == "<--" and self.emit_known and self.p(0.12):
+                # `signal (t, t) <-- (e1, e2)`: one signal named twice (known finding)
+                names[1] = names[0]
+                dupname = names[0]
+                self.features.add("decl-tuple-dup-name")
             s = w.pos
             if form < 2 or n == 1:
                 w.put("signal " + ", ".join("%s %s %s" % (nm, op, v[0]) for nm, v in zip(names, vals)))
@@ -282,11 +309,14 @@ class Gen:
             w.put(";\n")
             for nm, (e, m) in zip(names, vals):
                 if op == "<--":
-                    self.rec_assign(sc, rg, (nm, ""), fname)
+                    extra = {"kf": "decl-tuple-dup-name", "dup_group": s} if nm == dupname else None
+                    self.rec_assign(sc, rg, (nm, ""), fname, extra)
                 else:
                     self.rec_constraint(sc, rg, m | {(nm, "")}, fname + "-cassign")
             # the new signals are in scope for the rest of this block only: readable there
-            for nm in names:
+            for nm in dict.fromkeys(names):
+                if nm == dupname:
+                    continue    # which of the two declarations a later mention resolves to is not the generator's business
                 sc["readable"].append({"kind": "scalar", "name": nm})
                 sc["block_signals"].append(nm)
         elif r < 0.80:                                 # anonymous components
@@ -349,6 +379,94 @@ class Gen:
             e, _ = self.expr(sc, 1)
             w.put("log(%s);\n" % e)
 
+    def arrow(self, sc, t, k, extra):
+        """One `T <-- E;` or `E --> T;` line for the given target."""
+        w = self.w
+        e, _ = self.expr(sc, 2 if self.p(0.5) else 1)
+        self.indent(sc)
+        if self.p(0.75):
+            a = w.put("%s <-- %s" % (t, e))
+            form = "larrow"
+        else:
+            a = w.put("%s --> %s" % (self.atom(e), t))
+            form = "rarrow"
+        w.put(";\n")
+        self.rec_assign(sc, a, k, form, extra)
+
+    def inner(self, sc, loop=None):
+        """The scope of a nested block (what `block` builds)."""
+        inner = dict(sc)
+        inner["depth"] = sc["depth"] + 1
+        inner["loops"] = sc["loops"] + ([loop] if loop else [])
+        inner["locals"] = list(sc["locals"])
+        inner["readable"] = list(sc["readable"])
+        inner["block_signals"] = []
+        inner["block_locals"] = []
+        return inner
+
+    def dup_branch(self, sc):
+        """The same signal (scalar, component port, array element — inside a
+        loop: the element indexed by the loop variable) assigned with `<--` in
+        both branches of an if/else, as Circom allows when the condition is
+        known at compile time; optionally a third time in a following `if`.
+        The current line is already indented."""
+        w = self.w
+        arrays = [t for t in sc["targets"] if t["kind"] in ("array", "matrix", "comparr")]
+        closer = None
+        if not sc["loops"] and arrays and self.p(0.5):
+            # build the loop here so that the element is indexed by its variable
+            self.loop_id += 1
+            lid = self.loop_id
+            nm = self.ch(["i", "j", "k"])
+            w.put("for (var %s = 0; %s < %s; %s++) {\n" % (nm, nm, self.ch(["2", "3"]), nm))
+            closer = sc
+            sc = self.inner(sc, loop=(nm, lid))
+            self.indent(sc)
+            self.features.add("for")
+        if sc["loops"] and arrays and self.p(0.8):
+            sig = self.ch(arrays)
+            name, lid = sc["loops"][-1]
+            it, ik = name, "%s#%d" % (name, lid)
+            if sig["kind"] == "array":
+                t, k = "%s[%s]" % (sig["name"], it), (sig["name"], "[%s]" % ik)
+            elif sig["kind"] == "matrix":
+                c = str(self.rng.randrange(sig["dims"][1]))
+                t, k = "%s[%s][%s]" % (sig["name"], it, c), (sig["name"], "[%s][%s]" % (ik, c))
+            else:
+                port = self.ch(sig["ports"])
+                t, k = "%s[%s].%s" % (sig["name"], it, port), (sig["name"], "[%s].%s" % (ik, port))
+            shape = "elem-loop"
+        else:
+            sig = self.ch(sc["targets"])
+            t, k = self.sig_ref(sc, sig)
+            shape = {"scalar": "scalar", "comp": "port"}.get(sig["kind"], "elem-loop" if "#" in k[1] else "elem-const")
+        if sc["loops"] and self.p(0.7):
+            cond = "%s %% 2 == 0" % sc["loops"][-1][0]
+        elif sc["params"] and self.p(0.7):
+            cond = "%s == %d" % (sc["params"][0], self.rng.randrange(3))
+        else:
+            cond = self.expr(sc, 1)[0]
+        extra = {"dup": shape}
+        body = self.inner(sc)
+        w.put("if (%s) {\n" % cond)
+        self.arrow(body, t, k, extra)
+        self.indent(sc)
+        w.put("} else {\n")
+        self.arrow(self.inner(sc), t, k, extra)
+        self.indent(sc)
+        w.put("}\n")
+        if self.p(0.3):
+            self.indent(sc)
+            w.put("if (%s) {\n" % self.expr(sc, 1)[0])
+            self.arrow(self.inner(sc), t, k, extra)
+            self.indent(sc)
+            w.put("}\n")
+        if closer is not None:
+            self.indent(closer)
+            w.put("}\n")
+        self.features.add("if")
+        self.features.add("dup-" + shape)
+
     def anon(self, sc):
         w = self.w
         sub = self.ch(["Sub", "Sub", "Sub2", "Sub0"])
@@ -364,12 +482,16 @@ class Gen:
         else:
             args = ", ".join(v[0] for v in vals)
         call = "%s()(%s)" % (sub, args)
+        # `parallel Sub()(..)`: the findings for the inputs stay anchored at the call proper
+        par = "parallel " if self.p(0.2) else ""
+        if par:
+            self.features.add("anon-parallel")
         s0 = w.pos
         outer = None
         if len(outs) == 1:
             t, k = self.target(sc)
             oop = self.ch(["<==", "<==", "<--"])
-            w.put("%s %s " % (t, oop))
+            w.put("%s %s %s" % (t, oop, par))
             cr = w.put(call)
             outer = [(oop, k, (s0, w.pos))]
         elif len(outs) == 2:
@@ -380,10 +502,11 @@ class Gen:
             w.put(", ")
             (t2, k2) = self.target(sc)
             r2 = w.put(t2)
-            w.put(") %s " % oop)
+            w.put(") %s %s" % (oop, par))
             cr = w.put(call)
             outer = [(oop, k1, r1), (oop, k2, r2)]
         else:
+            w.put(par)
             cr = w.put(call)
             outer = []
         w.put(";\n")
@@ -404,13 +527,7 @@ class Gen:
         self.features.add("anon")
 
     def block(self, sc, budget, loop=None, tail=None):
-        inner = dict(sc)
-        inner["depth"] = sc["depth"] + 1
-        inner["loops"] = sc["loops"] + ([loop] if loop else [])
-        inner["locals"] = list(sc["locals"])
-        inner["readable"] = list(sc["readable"])
-        inner["block_signals"] = []
-        inner["block_locals"] = []
+        inner = self.inner(sc, loop)
         n = self.rng.randrange(1, 2 + budget)
         for _ in range(n):
             self.stmt(inner, budget)
@@ -419,12 +536,17 @@ class Gen:
             self.w.put(tail)
 
     # ---------------------------------------------------------------- definitions
-    def template(self, name, custom=False):
+    def template(self, name, custom=False, parallel=False):
+        """`template [custom] [parallel] NAME(..)` — the order the grammar fixes.
+        Only `custom` takes a template out of the property; a `parallel`
+        template is an ordinary template."""
         w = self.w
-        d = {"kind": "custom" if custom else "template", "name": name, "assigns": [], "constraints": []}
+        d = {"kind": "custom" if custom else "template", "name": name, "assigns": [], "constraints": [],
+             "parallel": parallel, "header": "template %s%s" % ("custom " if custom else "", "parallel " if parallel else "")}
         self.defs.append(d)
         params = ["n"] if self.p(0.7) else []
-        w.put("template %s%s(%s) {\n" % ("custom " if custom else "", name, ", ".join(params)))
+        w.put("%s%s(%s) {\n" % (d["header"], name, ", ".join(params)))
+        self.features.add("header:" + d["header"].strip())
         sc = {"def": d, "depth": 1, "loops": [], "locals": [], "params": params, "fresh": [0], "assigned": [],
               "functions": self.functions, "shadow": [], "block_signals": [], "block_locals": []}
         readable, targets, compouts = [], [], []
@@ -446,7 +568,7 @@ class Gen:
             targets.append({"kind": "matrix", "name": "m0", "dims": [3, 3]})
         if not custom:
             if self.p(0.6):
-                w.put("    component c0 = Sub();\n")
+                w.put("    component c0 = %sSub();\n" % ("parallel " if self.p(0.25) else ""))
                 targets.append({"kind": "comp", "name": "c0", "ports": ["in1", "in2"]})
                 compouts.append({"kind": "comp", "name": "c0", "outs": ["out"]})
             if self.p(0.4):
@@ -476,7 +598,13 @@ class Gen:
         w.put("    return r;\n}\n")
 
     def file(self):
-        self.w.put(PRELUDE)
+        ncustom = self.ch([0, 0, 1, 1, 2])
+        pragma, rest = PRELUDE.split("\n", 1)
+        self.w.put(pragma + "\n")
+        if ncustom and self.p(0.5):
+            self.w.put("pragma custom_templates;\n")
+            self.features.add("pragma-custom-templates")
+        self.w.put(rest)
         for nm in ("Sub", "Sub2", "Sub0"):
             self.defs.append({"kind": "template", "name": nm, "assigns": [], "constraints": []})
         # the constraints of the prelude are irrelevant (no `<--` there)
@@ -485,12 +613,14 @@ class Gen:
         for i in range(nf):
             self.function("f%d" % i)
             self.functions.append("f%d" % i)
+        # ordinary, parallel and custom templates in any order
         nt = self.rng.randrange(1, 4)
-        for i in range(nt):
-            self.template("T%d" % i)
-        if self.p(0.5):
+        plan = [("T%d" % i, False, self.p(0.35)) for i in range(nt)]
+        for i in range(ncustom):
             self.features.add("custom")
-            self.template("G0", custom=True)
+            plan.insert(self.rng.randrange(len(plan) + 1), ("G%d" % i, True, self.p(0.4)))
+        for name, custom, parallel in plan:
+            self.template(name, custom=custom, parallel=parallel)
         return {"src": self.w.text(), "defs": self.defs, "features": sorted(self.features)}
 
 
@@ -498,20 +628,29 @@ def generate(rng, size=8):
     return Gen(rng, size).file()
 
 
-def expected(defn, known=()):
+def expected(defn, known=(), keep=None):
     """The findings the property demands for one definition: a list of
     (anchor, secondaries-if-CS0005) — none for functions and custom templates.
     With `known` (names of known-finding classes) the expectation is what the
     defective code produces for exactly those classes; an assignment record may
     carry `kf` (class name) and `alt_constraint` (what it is mistaken for).
-    No class is listed at present."""
+    Class `decl-tuple-dup-name` (`signal (t, t) <-- (e1, e2)`): the records of
+    one `dup_group` stand for statements with the same location, name and
+    access; the defective code reports `keep[group]` of them (1 when their
+    degree claims agree, more when they differ)."""
     if defn["kind"] != "template":
         return []
     constraints = list(defn["constraints"])
     assigns = []
+    seen = {}
     for a in defn["assigns"]:
-        if a.get("kf") and a["kf"] in known:
+        if a.get("kf") and a["kf"] in known and "alt_constraint" in a:
             constraints.append(a["alt_constraint"])
+        elif a.get("kf") and a["kf"] in known and "dup_group" in a:
+            # the elements of one group collapse into `keep[group]` findings (at least one)
+            seen[a["dup_group"]] = seen.get(a["dup_group"], 0) + 1
+            if seen[a["dup_group"]] <= max(1, (keep or {}).get(a["dup_group"], 1)):
+                assigns.append(a)
         else:
             assigns.append(a)
     out = []
@@ -520,6 +659,15 @@ def expected(defn, known=()):
         secs = sorted({tuple(c["range"]) for c in constraints if key in c["mentions"]})
         out.append((tuple(a["anchor"]), secs))
     return sorted(out)
+
+
+def dup_groups(defn):
+    """dup_group -> number of records."""
+    out = {}
+    for a in defn["assigns"]:
+        if "dup_group" in a:
+            out[a["dup_group"]] = out.get(a["dup_group"], 0) + 1
+    return out
 
 
 def known_classes(defn):
